@@ -4,11 +4,49 @@ NOTES = ("Deterministic simulation with fault injection. One seed (VERIF_SEED) d
          "process before a VIOLATION line is printed. Genuine defects found on the pinned commit are either repaired "
          "by 'fix:' commits in /repo or listed in /verif/known_findings.jsonl. See DESIGN.md.")
 ENGINES = [
-    {"name": "history", "path": "/verif/sim", "serves_properties": ["C01"],
+    {"name": "history", "path": "/verif/sim", "serves_properties": ["C01","C02","C03","C04","C05","C06","C07","C08","C09","C10","C13","C15","C16"],
      "kind_free_text": "seeded history simulator: explicit op lists over 1-4 trees, captured versions, SimDisk, SimCache, sorted-map model; every MakeRoot runs under a synctest quiescence scheduler that releases parked Store calls one at a time in a chooser-picked order"},
 ]
 add("C01", "history", "exploration", "deterministic simulation: seeded histories vs sorted-map reference model under cache-eviction / restart residency schedules",
     "Seeded search over operation histories (all key/value dialects, branch factors, formats, cache kinds incl. evicting and chaos caches, restart and reload points) against an executable sorted-map model with the full contents re-read after every operation; failures are shrunk and replayed. Sampling, not proof.",
     "Trusts the harness model and dialect orders, SimDisk/SimCache stubs, synctest scheduling; healthy store (no fault injected into the call under judgement).", "DESIGN.md §3 C01")
-for pid in ["C02","C03","C04","C05","C06","C07","C08","C09","C10","C11","C12","C13","C14","C15","C16","C17","C18","C19"]:
+
+TRUST = "Trusts the harness model and dialect orders, SimDisk/SimCache stubs, the independent codec/hash written in the harness, and synctest quiescence scheduling; sampling over seeds, not proof."
+add("C02", "history", "exploration", "deterministic simulation: every captured version re-observed after every later op; cached-object fingerprint monitor; cache-kind / eviction / restart schedules",
+    "Seeded histories mixing mutations, clones (incl. clone-of-clone), open cursors, persists, reloads and restarts over one disk and one shared cache (none / large ARC / 1-4 entry ARC / chooser-evicting). After every op each captured version is re-read (clones via Iter, cursors by walking, roots via fresh LoadMast with and without the shared cache) and compared with its observation at capture; every node object handed to the cache is fingerprinted (via the verif hook) and re-checked.",
+    TRUST + " Needs the verif-tagged hook VerifNode to fingerprint cached objects.", "DESIGN.md §3 C02")
+add("C03", "history", "exploration", "deterministic simulation: synctest-scheduled completion orders of the concurrent Stores with injected store-fail / ack-lost / stall faults, durable-set vs reachable-set oracle",
+    "Every MakeRoot runs with each Persist.Store parked in SimDisk; at quiescence the seeded chooser picks which parked Store completes next and whether it succeeds, fails, or succeeds with the acknowledgement lost. Oracles: success => no Store in flight and every node reachable from the root is durable (read back after dropping all process state); any failed Store => error returned, tree contents unchanged and usable; a later success must again be complete; two disks sharing one cache; deadlock at quiescence is a violation.",
+    TRUST, "DESIGN.md §3 C03")
+add("C04", "history", "exploration", "deterministic simulation: persisted graph vs independently constructed reference MST; twin histories (shuffled inserts, deletes of extra keys, mid-way reload, fresh store) must return the identical root",
+    "At every MakeRoot the persisted graph is decoded with the harness's own decoder and compared with the unique reference tree built from (entries, key layers, bf, size-based height rule); 'canon' ops rebuild the same contents through a different history and demand identical Root{Link,Height,Size}. Layers adversarial via a user Key type.",
+    TRUST + " Key layers are taken from the library's exported layer function (the property is relative to the keys' layers).", "DESIGN.md §3 C04")
+add("C05", "history", "exploration", "deterministic simulation: persist -> (JSON of Root) -> load cycles and restarts against the model, both node formats, JSON and gob marshalers, all cache kinds",
+    "Seeded histories with up to dozens of persist/reload/restart cycles; each returned root is read back from the durable map and compared with the tree; each reload (direct, via JSON round trip of the Root, after restart) must reproduce entries, size, height, branch factor; the reloaded tree continues the history under the model.",
+    TRUST + " Only key/value types whose encoding round-trips are generated (see DESIGN.md).", "DESIGN.md §3 C05")
+add("C06", "history", "exploration", "deterministic simulation: DiffIter and StartDiff/NextEntry vs model difference over ordered pairs of live handles of any residency",
+    "Diff ops over ordered pairs among working trees (dirty or clean), clones, reloaded roots, emptied and never-populated trees and a nil old side; expected sequence from the two models (only judged when both sides' actual contents equal their models); callback and cursor interface compared; stop-after-j and callback-error flavours.",
+    TRUST, "DESIGN.md §3 C06")
+add("C07", "history", "exploration", "deterministic simulation: DiffLinks vs reach sets observed at the disk seam, plus a replica-sync run on a second simulated disk",
+    "For ordered pairs of persisted versions (ancestor/descendant, siblings, unrelated, different heights, empty, nil old) reach(old) and reach(new) are observed at the Persist seam; DiffLinks output must cover reach(new)-reach(old), stay inside reach(new), report each name once (symmetric for removed); then a replica disk holding reach(old) plus exactly the added nodes must load and iterate the new version.",
+    TRUST, "DESIGN.md §3 C07")
+add("C08", "history", "exploration", "deterministic simulation: write monitor on every Persist.Store with an independent BLAKE2b; determinism table; root registry",
+    "Every Store call of every run passes the SimDisk monitor: name == base64url-nopad(BLAKE2b-256(bytes)) using the harness's own BLAKE2b (RFC 7693 vectors self-tested); a name never re-written with different bytes; two writes that decode to the same entries and child names must be byte-identical; same root name => same contents; re-persisting an unmodified tree returns the same name.",
+    TRUST, "DESIGN.md §3 C08")
+add("C09", "history", "exploration", "deterministic simulation: independent decoder walks every persisted version and checks each shape clause relative to Root.Height",
+    "At every MakeRoot, every node reachable from the root is decoded with the harness's decoder and checked: level >= 0, level-0 nodes childless, keys strictly ascending inside the parent's range, key layer == node level (>= for the top node), n keys / n+1 links, no entry-less node other than single-child pass-through, Root.Size == reachable entries. Adversarial layers via user Key; delete/merge/shrink heavy histories.",
+    TRUST, "DESIGN.md §3 C09")
+add("C10", "history", "exploration", "deterministic simulation: cursor scripts and SeekIter probes vs a sorted list, on trees of every residency",
+    "Cursor scripts (Min/Max/Ceil(probe) then a string of Forward/Backward, Get after each) and SeekIter(probe, stop-after-j) on trees that are in memory, dirty, persisted, cache-resident or evicted, incl. empty and emptied trees; compared step by step with the sorted list of the tree's entries; no call may panic.",
+    TRUST + " Moves after the cursor reports 'no entry' are unspecified by the property and not judged.", "DESIGN.md §3 C10")
+add("C13", "history", "exploration", "deterministic simulation: Store log of each MakeRoot vs observed reach sets, decoded key ranges of the base version and the per-key write budget; IsDirty judged after every op",
+    "For every MakeRoot: stored names must be reachable from the returned root; an unmodified tree stores nothing and returns the same root; with unchanged height a re-stored node of the base version must contain a modified key in its key range and at most (2*height+2) nodes per modified key are stored; IsDirty()==false must imply contents equal to the base version (checked after every op). Includes trees of thousands of entries with small batches.",
+    TRUST, "DESIGN.md §3 C13")
+add("C15", "history", "exploration", "deterministic simulation: distinct names Loaded at the disk seam during DiffLinks / DiffIter / NextEntry vs 2*D+2",
+    "Ordered pairs of persisted versions are loaded cache-less on the recording SimDisk; D = |reach(a) symmetric-difference reach(b)| from observed reach sets; distinct names Loaded during each diff interface must be <= 2*D+2 and 0 for the same version; includes trees of thousands of entries differing in a few keys.",
+    TRUST, "DESIGN.md §3 C15")
+add("C16", "history", "exploration", "deterministic simulation: distinct names Loaded at the disk seam per point operation vs the height bounds",
+    "Probe ops open a persisted version cache-less on the recording SimDisk and count distinct names Loaded by LoadMast (<=1), Clone (<=1), Get (<=H+1), Insert/Delete without height change (<=2(H+1)), for present and absent keys of every layer, trees up to tens of thousands of entries.",
+    TRUST, "DESIGN.md §3 C16")
+for pid in ["C11","C12","C14","C17","C18","C19"]:
     NA[pid] = "check under construction in this round (engine not yet registered); see DESIGN.md §3 for the planned decision"
